@@ -71,6 +71,23 @@ func stressReal(transport string, burst int, callers int, d time.Duration) Stres
 		}
 		_ = w.SetResponse(codes.Content, message.TextPlain, bytes.NewReader([]byte("content-for-"+p)))
 	}))
+	// a handler that answers LATER: it keeps the connection and the request's token (as handed out by Token()) and sends the
+	// response from another goroutine a moment afterwards, while further requests are being received
+	_ = m.Handle("/d/{c}/{k}", mux.HandlerFunc(func(w mux.ResponseWriter, q *mux.Message) {
+		p, _ := q.Path()
+		cc, tok := w.Conn(), q.Token()
+		go func() {
+			time.Sleep(1500 * time.Microsecond)
+			resp := cc.AcquireMessage(cc.Context())
+			defer cc.ReleaseMessage(resp)
+			resp.SetCode(codes.Content)
+			resp.SetToken(tok)
+			resp.SetType(message.NonConfirmable)
+			resp.SetContentFormat(message.TextPlain)
+			resp.SetBody(bytes.NewReader([]byte("content-for-" + p)))
+			_ = cc.WriteMessage(resp)
+		}()
+	}))
 	noErr := options.WithErrors(func(error) {})
 	var addr string
 	var stop func()
@@ -113,14 +130,15 @@ func stressReal(transport string, burst int, callers int, d time.Duration) Stres
 	var cc getter
 	var err error
 	switch transport {
+	// (the callers really are concurrent: the default limits admit one request at a time)
 	case "udp":
-		cc, err = udp.Dial(addr, noErr)
+		cc, err = udp.Dial(addr, noErr, options.WithLimitClientParallelRequest(int64(callers)), options.WithLimitClientEndpointParallelRequest(int64(callers)), options.WithTransmission(uint32(callers), 2*time.Second, 4))
 	case "dtls":
-		cc, err = dtls.Dial(addr, pskConfig(), noErr)
+		cc, err = dtls.Dial(addr, pskConfig(), noErr, options.WithLimitClientParallelRequest(int64(callers)), options.WithLimitClientEndpointParallelRequest(int64(callers)), options.WithTransmission(uint32(callers), 2*time.Second, 4))
 	case "tcp":
-		cc, err = tcp.Dial(addr, noErr)
+		cc, err = tcp.Dial(addr, noErr, options.WithLimitClientParallelRequest(int64(callers)), options.WithLimitClientEndpointParallelRequest(int64(callers)))
 	default:
-		cc, err = tcp.Dial(addr, noErr, options.WithTLS(&tls.Config{InsecureSkipVerify: true})) //nolint:gosec
+		cc, err = tcp.Dial(addr, noErr, options.WithLimitClientParallelRequest(int64(callers)), options.WithLimitClientEndpointParallelRequest(int64(callers)), options.WithTLS(&tls.Config{InsecureSkipVerify: true})) //nolint:gosec
 	}
 	if err != nil {
 		r.First = "dial: " + err.Error()
@@ -138,6 +156,9 @@ func stressReal(transport string, burst int, callers int, d time.Duration) Stres
 			defer wg.Done()
 			for k := 0; time.Now().Before(deadline); k++ {
 				path := fmt.Sprintf("/e/%d/%d", c, k)
+				if k%2 == 1 {
+					path = fmt.Sprintf("/d/%d/%d", c, k) // answered later, from another goroutine
+				}
 				ctx, cancel := context.WithTimeout(context.Background(), 3*time.Second)
 				resp, err := cc.Get(ctx, path)
 				calls.Add(1)
